@@ -635,3 +635,179 @@ func TestLinPileup(t *testing.T) {
 		res.Steps += len(ops)
 	}
 }
+
+// TestLinReader records DIRECTED histories with a STALLED READER: a Read of k1 is parked inside the library's stats
+// call-out (cache_hit / cache_expired are reported after the entry has been looked up and before its value is handed
+// out); while it is parked other goroutines delete / overwrite k1, write other keys, expire or delete everything, run
+// a janitor cycle; then the reader is released.  What it returns must be explained by some instant of its (long) call:
+// a value that k1 held during the call - never a value written to another key, never a value written after the call.
+// Expired items are re-read at the end: what a reader was handed is a snapshot.  Judged by MonLin.
+func TestLinReader(t *testing.T) {
+	outp := os.Getenv("VERIF_TRACE_OUT")
+	if outp == "" || os.Getenv("VERIF_LINREADER") == "" {
+		t.Skip("VERIF_LINREADER not set")
+	}
+
+	seed := envInt("VERIF_SEED", 1)
+	n := int(envInt("VERIF_N", 60))
+	res := Result{Extra: map[string]interface{}{}}
+
+	defer func() { mustNoErr(writeJSON(os.Getenv("VERIF_OUT"), res), "write result") }()
+
+	f, err := os.Create(outp)
+	mustNoErr(err, "trace out")
+
+	defer f.Close()
+
+	enc := json.NewEncoder(f)
+	models := []string{"k1", "k2", "k3"}
+	stalled := 0
+
+	for hi := 0; hi < n; hi++ {
+		rng := rand.New(rand.NewSource(seed*7333 + int64(hi))) //nolint:gosec
+		kind := Kinds[hi%3]
+
+		km, err := NewKeyMap(seed+int64(hi), false, models)
+		mustNoErr(err, "keymap")
+
+		stat := NewStatRec()
+		entered := make(chan struct{})
+		release := make(chan struct{})
+
+		var once sync.Once
+
+		stat.Hook = func(ctx context.Context, metric, name string, val float64) {
+			if (metric == cache.MetricHit || metric == cache.MetricExpired) && ctx.Value(blockMark{}) != nil {
+				once.Do(func() {
+					close(entered)
+					<-release
+				})
+			}
+		}
+
+		cc := cache.Config{Name: "lin", Stats: stat, TimeToLive: time.Hour, ExpirationJitter: -1,
+			DeleteExpiredAfter: 30 * time.Minute, DeleteExpiredJobInterval: 100000 * time.Hour,
+			ItemsCountReportInterval: 100000 * time.Hour,
+			EvictionStrategy:         []cache.EvictionStrategy{cache.EvictMostExpired, cache.EvictLeastFrequentlyUsed}[hi%2]}
+
+		be := NewBackend(kind, cc)
+
+		var (
+			stamp int64
+			mu    sync.Mutex
+			ops   []linOp
+			idc   int64
+		)
+
+		record := func(op linOp) {
+			mu.Lock()
+			ops = append(ops, op)
+			mu.Unlock()
+		}
+
+		classCtx := func(cls string) context.Context {
+			switch cls {
+			case "stale":
+				return cache.WithTTL(context.Background(), -1, false)
+			case "old":
+				return cache.WithTTL(context.Background(), -time.Hour, false)
+			}
+
+			return context.Background()
+		}
+
+		write := func(g int, mk, cls string) {
+			op := linOp{ID: int(atomic.AddInt64(&idc, 1)), G: g, Op: "Write", K: mk, Cls: cls}
+			op.V = fmt.Sprintf("%s.g%d.%d", mk, g, op.ID)
+			op.Call = atomic.AddInt64(&stamp, 1)
+			_ = be.Write(classCtx(cls), km.ByModel[mk], op.V)
+			op.Ret = atomic.AddInt64(&stamp, 1)
+			record(op)
+		}
+
+		read := func(g int, mk string, ctx context.Context) {
+			op := linOp{ID: int(atomic.AddInt64(&idc, 1)), G: g, Op: "Read", K: mk}
+			op.Call = atomic.AddInt64(&stamp, 1)
+			rr := be.Read(ctx, km.ByModel[mk])
+			op.Ret = atomic.AddInt64(&stamp, 1)
+			op.Res, op.RV = rr.Class, rr.V
+			record(op)
+		}
+
+		// pre-phase: k1 holds a fresh or an expired value, the other keys something or nothing
+		write(0, "k1", []string{"fresh", "stale", "fresh", "old"}[rng.Intn(4)])
+
+		if rng.Intn(2) == 0 {
+			write(0, "k2", "fresh")
+		}
+
+		var wg sync.WaitGroup
+
+		wg.Add(1)
+
+		go func() {
+			defer wg.Done()
+
+			read(1, "k1", context.WithValue(context.Background(), blockMark{}, true))
+		}()
+
+		select {
+		case <-entered:
+			stalled++
+		case <-time.After(2 * time.Second): // a Read that reports nothing (it cannot happen here) just runs through
+		}
+
+		// mid-phase: the world changes while the reader sits on the entry it has looked up
+		for i, m := 0, 2+rng.Intn(4); i < m; i++ {
+			switch x := rng.Intn(10); {
+			case x < 3:
+				write(2, "k1", []string{"fresh", "stale"}[rng.Intn(2)])
+			case x < 5:
+				op := linOp{ID: int(atomic.AddInt64(&idc, 1)), G: 2, Op: "Delete", K: "k1"}
+				op.Call = atomic.AddInt64(&stamp, 1)
+				err := be.Delete(context.Background(), km.ByModel["k1"])
+				op.Ret = atomic.AddInt64(&stamp, 1)
+
+				op.Res = "ok"
+				if err != nil {
+					op.Res = "notfound"
+				}
+
+				record(op)
+			case x < 8:
+				write(2, []string{"k2", "k3"}[rng.Intn(2)], "fresh")
+			default:
+				op := linOp{ID: int(atomic.AddInt64(&idc, 1)), G: 2, Op: []string{"ExpireAll", "DeleteAll", "Cleanup"}[rng.Intn(3)]}
+				op.Call = atomic.AddInt64(&stamp, 1)
+
+				switch op.Op {
+				case "ExpireAll":
+					be.ExpireAll(context.Background())
+				case "DeleteAll":
+					be.DeleteAll(context.Background())
+				case "Cleanup":
+					be.Cleanup()
+				}
+
+				op.Ret = atomic.AddInt64(&stamp, 1)
+				record(op)
+			}
+		}
+
+		close(release)
+		wg.Wait()
+
+		for _, mk := range models {
+			read(0, mk, context.Background())
+		}
+
+		sort.Slice(ops, func(i, j int) bool { return ops[i].Call < ops[j].Call })
+
+		_ = enc.Encode(map[string]interface{}{"h": 400000 + hi, "kind": kind, "collide": false, "goroutines": 2, "ops": ops,
+			"keys": models, "evict": false, "stalled": "reader"})
+		res.Evaluations++
+		res.Steps += len(ops)
+	}
+
+	res.Extra["reader_stalled_in_run"] = stalled
+}
